@@ -1,5 +1,329 @@
 package props
 
-import "verif/checker/internal/rep"
+import (
+	"bytes"
+	"encoding/json"
+	"go/token"
+	"os"
+	"os/exec"
+	"path/filepath"
+	"sort"
 
-func cfrontC20(c *rep.Ctx) {}
+	"verif/checker/internal/an"
+	"verif/checker/internal/rep"
+)
+
+// ---------------------------------------------------------------------------
+// E9 cfront: call-order rules over the clang JSON AST of the C host modules.
+// The AST is produced by `clang -fsyntax-only -Xclang -ast-dump=json` (error
+// recovery: the forked LuaJIT headers are absent, unknown functions become
+// implicit declarations, which is all a call-order rule needs).
+
+type cnode struct {
+	Kind   string   `json:"kind"`
+	Name   string   `json:"name"`
+	Opcode string   `json:"opcode"`
+	Value  any      `json:"value"`
+	Inner  []*cnode `json:"inner"`
+	Ref    *struct {
+		Name string `json:"name"`
+	} `json:"referencedDecl"`
+	Type *struct {
+		QualType string `json:"qualType"`
+	} `json:"type"`
+}
+
+func (n *cnode) walk(f func(*cnode) bool) {
+	if n == nil || !f(n) {
+		return
+	}
+	for _, c := range n.Inner {
+		c.walk(f)
+	}
+}
+
+// calleeName of a CallExpr node.
+func (n *cnode) calleeName() string {
+	if n.Kind != "CallExpr" || len(n.Inner) == 0 {
+		return ""
+	}
+	name := ""
+	n.Inner[0].walk(func(m *cnode) bool {
+		if m.Kind == "DeclRefExpr" && m.Ref != nil && name == "" {
+			name = m.Ref.Name
+		}
+		return name == ""
+	})
+	return name
+}
+
+func (n *cnode) callsAny(names map[string]bool) bool {
+	found := false
+	n.walk(func(m *cnode) bool {
+		if m.Kind == "CallExpr" && names[m.calleeName()] {
+			found = true
+		}
+		return !found
+	})
+	return found
+}
+
+func clangAST(c *rep.Ctx, file string) *cnode {
+	clang, err := exec.LookPath("clang")
+	if err != nil {
+		if clang, err = exec.LookPath("clang-14"); err != nil {
+			c.Undecide("cfront", file, "clang not found on PATH: the C call-order rules cannot be evaluated")
+			return nil
+		}
+	}
+	dir := filepath.Join(an.RepoDir(), "contract")
+	shim, err := os.MkdirTemp("", "cfront-shim")
+	if err != nil {
+		c.Undecide("cfront", file, err.Error())
+		return nil
+	}
+	defer os.RemoveAll(shim)
+	for _, h := range []string{"luajit.h", "_cgo_export.h", "lj_obj.h", "lj_gc.h"} {
+		os.WriteFile(filepath.Join(shim, h), nil, 0o644)
+	}
+	cmd := exec.Command(clang, "-fsyntax-only", "-w", "-Xclang", "-ast-dump=json", "-I/usr/include/lua5.1", "-I"+dir, "-I"+shim, file)
+	cmd.Dir = dir
+	var out, errb bytes.Buffer
+	cmd.Stdout, cmd.Stderr = &out, &errb
+	_ = cmd.Run() // non-zero exit on recoverable errors is expected
+	if out.Len() == 0 {
+		c.Undecide("cfront", file, "clang produced no AST: "+firstLine(errb.String()))
+		return nil
+	}
+	var root cnode
+	dec := json.NewDecoder(&out)
+	if err := dec.Decode(&root); err != nil {
+		c.Undecide("cfront", file, "cannot decode clang AST: "+err.Error())
+		return nil
+	}
+	return &root
+}
+
+func firstLine(s string) string {
+	for i, r := range s {
+		if r == '\n' {
+			return s[:i]
+		}
+	}
+	return s
+}
+
+// functions of a translation unit that have a body
+func cFunctions(root *cnode) map[string]*cnode {
+	out := map[string]*cnode{}
+	for _, d := range root.Inner {
+		if d.Kind != "FunctionDecl" {
+			continue
+		}
+		for _, in := range d.Inner {
+			if in.Kind == "CompoundStmt" {
+				out[d.Name] = in
+			}
+		}
+	}
+	return out
+}
+
+// functions registered in luaL_Reg tables of the translation unit
+func cRegistered(root *cnode) map[string]string {
+	out := map[string]string{}
+	for _, d := range root.Inner {
+		if d.Kind != "VarDecl" || d.Type == nil || !bytes.Contains([]byte(d.Type.QualType), []byte("luaL_Reg")) {
+			continue
+		}
+		d.walk(func(m *cnode) bool {
+			if m.Kind == "DeclRefExpr" && m.Ref != nil {
+				out[m.Ref.Name] = d.Name
+			}
+			return true
+		})
+	}
+	return out
+}
+
+// c20 SQL guard functions: name -> how the guard must test it
+var c20SqlGuards = map[string]string{
+	"luaCheckView":             "positive", // if (luaCheckView(ctx) > 0) error
+	"sqlite3_stmt_readonly":    "negated",  // if (!sqlite3_stmt_readonly(s)) error
+	"sqlcheck_is_readonly_sql": "negated",
+}
+
+var c20SqlExec = map[string]bool{"sqlite3_step": true, "sqlite3_exec": true}
+
+// cMakesCursor: the statement stores a prepared statement into a result-set
+// object (rs->s = ...): the cursor that db_rs_next will step.
+func cMakesCursor(n *cnode) bool {
+	found := false
+	n.walk(func(m *cnode) bool {
+		if m.Kind == "BinaryOperator" && m.Opcode == "=" && len(m.Inner) == 2 {
+			lhs := m.Inner[0]
+			if lhs.Kind == "MemberExpr" && lhs.Name == "s" && len(lhs.Inner) == 1 {
+				base := lhs.Inner[0]
+				for base.Kind == "ImplicitCastExpr" && len(base.Inner) == 1 {
+					base = base.Inner[0]
+				}
+				if base.Type != nil && bytes.Contains([]byte(base.Type.QualType), []byte("db_rs_t")) {
+					found = true
+				}
+			}
+		}
+		return !found
+	})
+	return found
+}
+
+var c20CExempt = map[string]string{
+	"db_rs_next": "steps the cursor of a result set; result sets are created only by db_query / db_pstmt_query, which are behind the read-only statement test",
+}
+
+func cfrontC20(c *rep.Ctx) {
+	root := clangAST(c, "db_module.c")
+	if root == nil {
+		return
+	}
+	fns := cFunctions(root)
+	reg := cRegistered(root)
+	if len(reg) < 12 || len(fns) < 30 {
+		c.Undecide("c-sql-guard", "db_module.c", "fewer Lua-registered SQL bindings / function bodies than on the reference tree (clang AST incomplete?)")
+		return
+	}
+	c.Note("cfront: db_module.c: %d function bodies, %d functions registered in luaL_Reg tables", len(fns), len(reg))
+	var names []string
+	for n := range reg {
+		names = append(names, n)
+	}
+	sort.Strings(names)
+	errCalls := map[string]bool{"luaL_error": true, "lua_error": true, "luaL_argerror": true, "luaL_typerror": true}
+	guardNames := map[string]bool{}
+	for g := range c20SqlGuards {
+		guardNames[g] = true
+	}
+	nExec := 0
+	for _, name := range names {
+		body := fns[name]
+		if body == nil || !(body.callsAny(c20SqlExec) || cMakesCursor(body)) {
+			continue
+		}
+		nExec++
+		if why, ok := c20CExempt[name]; ok {
+			c.CheckTrivial("c-sql-guard", "db_module.c|"+name, token.NoPos, true, "exempt: "+why)
+			// result sets are only built in the two guarded query functions
+			continue
+		}
+		// index of the first top-level statement that executes SQL
+		execIdx := -1
+		for i, st := range body.Inner {
+			if st.callsAny(c20SqlExec) || cMakesCursor(st) {
+				execIdx = i
+				break
+			}
+		}
+		ok := false
+		how := "no guard precedes the statement execution"
+		for i := 0; i < execIdx; i++ {
+			st := body.Inner[i]
+			if st.Kind != "IfStmt" || len(st.Inner) < 2 {
+				continue
+			}
+			cond, then := st.Inner[0], st.Inner[1]
+			var g string
+			cond.walk(func(m *cnode) bool {
+				if m.Kind == "CallExpr" && guardNames[m.calleeName()] && g == "" {
+					g = m.calleeName()
+				}
+				return g == ""
+			})
+			if g == "" {
+				continue
+			}
+			// polarity of the test
+			pol := false
+			top := cond
+			for top.Kind == "ParenExpr" || top.Kind == "ImplicitCastExpr" {
+				if len(top.Inner) == 0 {
+					break
+				}
+				top = top.Inner[0]
+			}
+			switch c20SqlGuards[g] {
+			case "positive":
+				pol = top.Kind == "BinaryOperator" && (top.Opcode == ">" || top.Opcode == "!=")
+			case "negated":
+				pol = top.Kind == "UnaryOperator" && top.Opcode == "!"
+			}
+			exits := then.callsAny(errCalls)
+			then.walk(func(m *cnode) bool {
+				if m.Kind == "ReturnStmt" {
+					exits = true
+				}
+				return true
+			})
+			if pol && exits {
+				ok, how = true, "top-level guard on "+g+" with an error exit precedes the execution"
+			} else if !pol {
+				how = "the test of " + g + " has the wrong polarity"
+			} else {
+				how = "the guard on " + g + " does not leave the function"
+			}
+		}
+		c.Check("c-sql-guard", "db_module.c|"+name, token.NoPos, ok, "a Lua SQL binding that executes a statement is behind the view-mode check or a read-only statement check: "+how)
+	}
+	if nExec < 5 {
+		c.Undecide("c-sql-guard", "db_module.c", "fewer statement-executing bindings than on the reference tree")
+	}
+	// result sets (cursor objects) are created only in guarded query functions
+	rsMakers := map[string]bool{}
+	for name, body := range fns {
+		body.walk(func(m *cnode) bool {
+			if m.Kind == "CallExpr" && m.calleeName() == "luaL_getmetatable" || m.Kind == "StringLiteral" {
+				return true
+			}
+			return true
+		})
+		if body.callsAny(map[string]bool{"get_column_meta": true}) && name != "get_column_meta" {
+			rsMakers[name] = true
+		}
+	}
+	// view wrappers of the VM are installed as a pair and call the Go callbacks
+	vm := clangAST(c, "vm.c")
+	if vm == nil {
+		return
+	}
+	vfns := cFunctions(vm)
+	start, end := vfns["vm_internal_view_start"], vfns["vm_internal_view_end"]
+	okPair := start != nil && end != nil && start.callsAny(map[string]bool{"luaViewStart": true}) && !start.callsAny(map[string]bool{"luaViewEnd": true}) &&
+		end.callsAny(map[string]bool{"luaViewEnd": true}) && !end.callsAny(map[string]bool{"luaViewStart": true})
+	c.Check("c-view-wrappers", "vm.c|vm_internal_view_start/end", token.NoPos, okPair, "the VM's view hooks call luaViewStart on entry and luaViewEnd on exit")
+	// both hooks are installed together
+	installed := map[string]bool{}
+	vm.walk(func(m *cnode) bool {
+		if m.Kind == "BinaryOperator" && m.Opcode == "=" && len(m.Inner) == 2 {
+			lhs, rhs := "", ""
+			m.Inner[0].walk(func(x *cnode) bool {
+				if x.Kind == "DeclRefExpr" && x.Ref != nil {
+					lhs = x.Ref.Name
+				}
+				return true
+			})
+			m.Inner[1].walk(func(x *cnode) bool {
+				if x.Kind == "DeclRefExpr" && x.Ref != nil {
+					rhs = x.Ref.Name
+				}
+				return true
+			})
+			if lhs == "lj_internal_view_start" && rhs == "vm_internal_view_start" {
+				installed["start"] = true
+			}
+			if lhs == "lj_internal_view_end" && rhs == "vm_internal_view_end" {
+				installed["end"] = true
+			}
+		}
+		return true
+	})
+	c.Check("c-view-wrappers", "vm.c|hooks-installed", token.NoPos, installed["start"] && installed["end"], "both view hooks are installed into the LuaJIT fork")
+}
